@@ -194,3 +194,59 @@ fn verif_native_trap_output() {
     let _ = std::fs::remove_dir_all(&dir);
     verif_out(&format!("VERIF-NATIVE name={} evaluated={} distinct={}", name, evaluated, evaluated));
 }
+
+/// C18 (run time, process level): an image that reaches opcode 0xD stops with exit status 1 without `-f stack` and executes
+/// with it, for each of the four sub-forms (raw words, so the assembler's own gate is not involved)
+#[test]
+fn verif_native_stack_gate_cli() {
+    let name = "verif_native_stack_gate_cli";
+    if std::env::var("VERIF_LACE_BIN").is_err() { verif_out(&format!("VERIF-NATIVE name={} evaluated=0 distinct=0", name)); return; }
+    let dir = std::env::temp_dir().join(format!("lace-verif-gate-{}", std::process::id()));
+    std::fs::create_dir_all(&dir).unwrap();
+    // PUSH r1 / POP r2 / CALL +1 / RETS as raw words, each followed by enough to halt cleanly when executed
+    let progs = [
+        ".fill xD440\nhalt\n",                       // push r1
+        ".fill xD440\n.fill xD080\nhalt\n",          // push r1; pop r2
+        ".fill xDC01\nhalt\nhalt\n",                 // call +1
+        "lea r0, t\n.fill xD400\n.fill xD800\nhalt\nt halt\n", // push r0; rets -> jumps to t
+    ];
+    let mut evaluated = 0u64;
+    for src in progs {
+        let asm = dir.join("g.asm");
+        std::fs::write(&asm, src).unwrap();
+        evaluated += 1;
+        let (off, _) = run_lace(&["run", "-m", asm.to_str().unwrap()]).expect("lace binary");
+        let (on, _) = run_lace(&["run", "-m", "-f", "stack", asm.to_str().unwrap()]).expect("lace binary");
+        if off != 1 || on != 0 {
+            verif_out(&format!("VERIF-COUNTEREXAMPLE name={} input=program {:?} detail=exit status {} without the flag (expected 1), {} with -f stack (expected 0)", name, src, off, on));
+            panic!("violation");
+        }
+    }
+    // the flag changes nothing for programs that use none of the four mnemonics and never execute opcode 0xD:
+    // same output and exit status with and without -f stack, same image
+    let plain = [
+        "reg\nhalt\n",
+        "add r0, r7, #0\nputn\nhalt\n",
+        "ld r1, v\nstr r1, r7, #-1\nldr r0, r7, #-1\nout\nhalt\nv .fill x41\n",
+        "lea r0, s\nputs\njsr f\nhalt\nf ret\ns .stringz \"pop call\"\n",
+    ];
+    for src in plain {
+        let asm = dir.join("n.asm");
+        let obj = dir.join("n.lc3");
+        std::fs::write(&asm, src).unwrap();
+        evaluated += 1;
+        let a = run_lace(&["run", "-m", asm.to_str().unwrap()]).expect("lace binary");
+        let b = run_lace(&["run", "-m", "-f", "stack", asm.to_str().unwrap()]).expect("lace binary");
+        let _ = run_lace(&["compile", "-f", "stack", asm.to_str().unwrap(), obj.to_str().unwrap()]);
+        let img_on = std::fs::read(&obj).unwrap_or_default();
+        let _ = run_lace(&["compile", asm.to_str().unwrap(), obj.to_str().unwrap()]);
+        let img_off = std::fs::read(&obj).unwrap_or_default();
+        if a != b || img_on != img_off || img_off.is_empty() {
+            verif_out(&format!("VERIF-COUNTEREXAMPLE name={} input=program {:?} detail=without the flag: status {} output {:?}; with -f stack: status {} output {:?}; images equal: {}",
+                name, src, a.0, String::from_utf8_lossy(&a.1), b.0, String::from_utf8_lossy(&b.1), img_on == img_off));
+            panic!("violation");
+        }
+    }
+    let _ = std::fs::remove_dir_all(&dir);
+    verif_out(&format!("VERIF-NATIVE name={} evaluated={} distinct={}", name, evaluated, evaluated));
+}
